@@ -2,7 +2,7 @@
 Small-step interleaving model of `windpyutils/parallel/storage.py:TextFileStorage` (C14, after the repairs D13/D14/D20).
 
 Any number of processes, each with its own fork-style copy of the storage object (private: process identifier, write
-handle, read handles) and a script of operations (`store`, `read`, `len`, `is_contiguous`, iterate, `flush`).  Shared:
+handle, read handles) and a script of operations (`store`, `read`, `len`, `is_contiguous`, iterate, `flush`, `close`).  Shared:
 the manager lists `_file_paths` and `_index`, the counters `_stored_cnt` and `_waiting_for`, the re-entrant cross-process
 lock, and the files.  One step = one visible operation: a manager-list call, a counter read or write, a lock
 acquire/release, `open`, `tell`, `write`, `flush`, `seek`, `readline`, `os.remove`.  A `write` is visible to readers at once
@@ -22,6 +22,7 @@ inductive Op
   | contig
   | iter
   | flush
+  | close                       -- `close()` / leaving the `with storage:` block (`__exit__`): the session ends, the process goes on
   deriving DecidableEq, Repr
 
 /-- what an operation returned -/
@@ -51,6 +52,8 @@ inductive Pc
   | iAcq | iIdxLen | iRel
   -- flush()
   | fAcq | fPathsGet | fRemove | fPathsClear | fIdxClear | fCntZero | fWfZero | fRel
+  -- close() / __exit__
+  | xClose
   deriving DecidableEq, Repr
 
 structure Proc where
@@ -123,6 +126,7 @@ def fetch (p : Proc) : Proc :=
     | .contig => { p with pc := .cWf }
     | .iter => { p with pc := .iAcq, iterAcc := [] }
     | .flush => { p with pc := .fAcq, wOpen := false, rOpen := [] }   -- `self.close()` first (thread-local)
+    | .close => { p with pc := .xClose }
 
 /-- an operation finished with result `r` -/
 def finish (p : Proc) (r : Res) : Proc := fetch { p with results := p.results ++ [r], pc := .idle }
@@ -238,6 +242,11 @@ def step (s : St) (i : Nat) : Option St :=
     | .fWfZero => set { s with wf := 0 } { p with pc := .fRel }
     -- after the lock is released: `self._process_identifier = None` (the handles were closed at the start of `flush()`)
     | .fRel => let (s, p) := release s i p; set s (finish { p with ident := none, wOpen := false, rOpen := [] } .ok)
+    -- close() / __exit__ ---------------------------------------------------------------------------------------------------
+    -- `self._file.close(); self._file = None`, every read handle closed, `_opened_files_for_reading = []`.  Nothing shared is
+    -- touched and `_process_identifier` is kept: the next `open()` takes the append branch (`oPathsGet`, `oOpenA`); a handle
+    -- opened with "a" is positioned at the end of the file, so `tell()` (`sTell`) is again the current length of the file.
+    | .xClose => set s (finish { p with wOpen := false, rOpen := [] } .ok)
 
 /-- start: every process fetches its first operation -/
 def start (s : St) : St := { s with procs := s.procs.map fetch }
